@@ -42,6 +42,7 @@ func RunConnTLS(server *redis.Server, conn *seq.Conn, tlsState *tls.ConnectionSt
 	vrt.SetSeqClock(FixedClock)
 	vrt.ResetRand()
 	vrt.ResetTicks()
+	vrt.ResetSeqAllowance()
 	inner := conn.OnRead
 	conn.OnRead = func(delivered int, starving bool) {
 		if !starving {
